@@ -6,6 +6,7 @@ package sim
 // between two synctest.Wait calls, so simulator state needs no locking.
 
 import (
+	"errors"
 	"crypto/sha256"
 	"encoding/hex"
 	"fmt"
@@ -92,6 +93,8 @@ type wakeMsg struct {
 
 type simAbort struct{}
 
+var errCrashed = errors.New("sim: the server crashed while this request was in progress")
+
 type Task struct {
 	ID      string
 	Idx     int
@@ -102,6 +105,7 @@ type Task struct {
 	pending *Op
 	running bool
 	done    bool
+	dead    bool // killed by a simulated crash of its server
 	started bool
 	spawned int
 	calls   map[string]int // per-method call counter (fault site addressing)
@@ -181,6 +185,9 @@ type Sim struct {
 	now      int64 // simulated clock, nanoseconds since base
 	maxSteps int
 	stuck    bool
+	crashed  bool
+	crashAt  *FaultSpec
+	crashStep int
 	deadlockAt string
 }
 
@@ -305,7 +312,59 @@ func (s *Sim) yield(op Op) wakeMsg {
 
 // inAbort lets deferred seam calls (Unlock in a deferred function while a
 // poisoned task unwinds) become no-ops.
-func (s *Sim) inAbort() bool { return s.aborting.Load() }
+func (s *Sim) inAbort() bool {
+	if s.aborting.Load() {
+		return true
+	}
+	if s.crashed {
+		if t := s.curTask(); t != nil && t.dead {
+			return true
+		}
+	}
+	return false
+}
+
+// crash kills every task addressed to host at its current seam: the sentinel panic unwinds through the
+// library (deferred seam calls are no-ops for a dead task), locks vanish, the database contents survive.
+func (s *Sim) crash(host string) {
+	s.crashed = true
+	s.Fired["crash"]++
+	s.logEv(Event{Task: "-", Srv: host, Kind: "CRASH"})
+	for _, t := range s.tasks {
+		if t.started && !t.done && t.Srv == host && t.Req != nil && !t.Req.AfterCrash {
+			t.dead = true
+			t.Err = errCrashed
+		}
+	}
+	// children spawned by the library (go statements) die with their parent
+	for changed := true; changed; {
+		changed = false
+		for _, t := range s.tasks {
+			if !t.dead && t.started && !t.done && t.Parent != nil && t.Parent.dead && t.Origin == "lib" {
+				t.dead = true
+				changed = true
+			}
+		}
+	}
+	for _, t := range s.tasks {
+		if t.dead && !t.done && !t.running && t.pending != nil {
+			t.pending = nil
+			t.wake <- wakeMsg{poison: true}
+			synctest.Wait()
+		}
+	}
+	synctest.Wait()
+	for k, h := range s.locks {
+		if h.dead {
+			delete(s.locks, k)
+		}
+	}
+	for m, h := range s.mutexes {
+		if h.dead {
+			delete(s.mutexes, m)
+		}
+	}
+}
 
 func (s *Sim) enabled(t *Task) bool {
 	if t.done || t.pending == nil || t.running {
@@ -314,6 +373,9 @@ func (s *Sim) enabled(t *Task) bool {
 	op := t.pending
 	switch op.Kind {
 	case opStart:
+		if t.Req != nil && t.Req.AfterCrash && s.crashAt != nil && !s.crashed {
+			return false
+		}
 		for _, dep := range t.After {
 			for _, d := range s.tasks {
 				if (d.ID == dep || strings.HasPrefix(d.ID, dep+".")) && !d.done {
@@ -381,7 +443,7 @@ func (s *Sim) loop() {
 			if !t.started {
 				continue
 			}
-			if !t.done {
+			if !t.done && !t.dead {
 				unfinished++
 			}
 			if t.running && !t.done {
@@ -390,6 +452,11 @@ func (s *Sim) loop() {
 			if s.enabled(t) {
 				enabled = append(enabled, t)
 			}
+		}
+		if s.crashAt != nil && !s.crashed && (len(enabled) == 0 || s.Steps >= s.crashStep) {
+			// the crash: at its step, or at quiescence if the run got there first (a restart with nothing in flight)
+			s.crash(s.crashAt.Arg)
+			continue
 		}
 		if len(enabled) == 0 {
 			if unfinished > 0 {
